@@ -29,8 +29,27 @@ STRENGTHENED = {
  "C05-f": "unknown-handling sibling keys under one direction", "C10-f": "diamond closures in the depth leg",
  "C12-f": "`Link(vertices=list)` and edge `attributes=` inputs", "C13-f": "links that lost an end in the read-only graphs",
  "C14-f": "one options table grown between two renderings", "C17-f": "partially consumed enumeration resumed after the next call",
- "C08-f": "(caught at import, missed once after a generator change: shared-uid rate raised in search cases)"}
-ROUND = {"a": 1, "b": 1, "c": 2, "d": 3, "e": 4, "f": 5}
+ "C08-f": "(caught at import, missed once after a generator change: shared-uid rate raised in search cases)",
+ "C04-h": "vertex class whose instances all compare equal (`EqV`) in the identity-pure neighbors() leg",
+ "C05-g": "every neighbors() answer is scribbled on by the harness after it is recorded (the list is the caller's)",
+ "C13-h": "every neighbors() answer is scribbled on by the harness after it is recorded (the list is the caller's)",
+ "C07-g": "memo warmed under all common settings before the traversals + memo-free rebuild as the determinism oracle (was tie-only)",
+ "C07-h": "engine watchdog: a case whose calls never return is a reported violation with that case as replay (the check had hung)",
+ "C10-h": "edits of the freshly loaded copy must end as they do on a twin loaded with caching off (had been swallowed as 'attempts')",
+ "C12-h": "every container argument also passed EMPTY and filled by the caller afterwards",
+ "C16-h": "memo warmed under all common settings before the renderings",
+ "C17-g": "falsy semi-singleton instances", "C17-h": "a nested dict keyword value written in two insertion orders",
+ "C18-g": "classes that use the metaclass through a subclass of it (plain, or combined with abc.ABCMeta)",
+ "C15-h": "NOT caught by its target: the change breaks the structure (`e.v1 = e.v1` flips the edge; C03 / C01 report it), the export agrees with the structure it reads",
+ "C02-i": "`universes=` lists with non-adjacent repeats ([u1, u2, u1])", "C02-j": "vertices sharing one caller-supplied uid in the structure histories",
+ "C04-i": "warm memos followed by link edits before the questions in the C04 random leg",
+ "C10-j": "by-value vertex class whose metaclass is abc.ABCMeta", "C10-l": "universes whose law set was taken away before the dump",
+ "C12-j": "every accessor also read on an EMPTY object (isolated vertex, link without ends, empty universe / whitelist)",
+ "C13-i": "user attributes named like every identifier-like string literal of the library's sources",
+ "C13-j": "one options table and one hook object for the normal call, the faulting calls and the repeats",
+ "C14-i": "distinct classes sharing one `__name__`", "C14-j": "title fields backed by properties (`uid`, a property of the class)",
+ "C16-i": "harness vertex subclass with a `__str__` of its own"}
+ROUND = {"a": 1, "b": 1, "c": 2, "d": 3, "e": 4, "f": 5, "g": 6, "h": 6, "i": 7, "j": 7, "k": 7, "l": 7}
 
 rows, per_round = [], {}
 for sd in sorted((V / "seeded").iterdir()):
@@ -59,6 +78,9 @@ for sd in sorted((V / "seeded").iterdir()):
     ns = [p for p in PIDS if r.get(p) == "N"]
     if not r:
         vs, ns = meta.get("detected_by", []), []
+    for p_ in meta.get("detected_by", []):          # checks other than the target run by hand at import (rounds 4-6)
+        if p_ not in vs and p_ != name.split("-")[0] and name not in M:
+            vs.append(p_)
     note = STRENGTHENED.get(name, "")
     if meta.get("neutralised"):
         note = (note + "; " if note else "") + "NEUTRALISED on HEAD by fix D27 (no longer a violation; detected on the tree it was written for)"
@@ -74,18 +96,19 @@ for sd in sorted((V / "seeded").iterdir()):
 clean = M.get("(clean tree)", {})
 clean_ok = all(v == "-" for v in clean.values()) and len(clean) == 20
 tally = ", ".join(f"{s} of {n} in round {r}" for r, (n, s) in sorted(per_round.items()))
-text = f"""Five rounds of seeded changes (variants `a`+`b` = round 1, `c` = round 2, `d` = round 3, `e` = round 4, `f` = round 5; {len(rows)} in
+text = f"""Seven rounds of seeded changes (variants `a`+`b` = round 1, `c` = round 2, `d` = round 3, `e` = round 4, `f` = round 5, `g`+`h` = round 6: one- to three-line slips, `i`-`l` = round 7: aimed at the files and functions the earlier rounds had left alone; {len(rows)} in
 all), every one written by a fresh sub-agent that saw only the property text and a scratch worktree (later rounds also a one-line
 list of the earlier ideas and idea families, to be avoided), and kept only after `tools/evalseed.py` had confirmed in a scratch
 worktree that it applies, that the unedited suite still reports `652 passed`, and that its demo fails with it and passes without.
 Stored as `seeded/<id>/` (`patch.diff`, `demo.py`, `notes.md`, `meta.json`; where a later `fix:` commit touched the same lines the
 change was re-created on HEAD and the original kept as `patch.orig.diff`). **Every one is detected by the check of its target
 property** - except C05-e and C10-b, which fix D27 turned into harmless code (their own demos pass on HEAD; they were detected on the
-tree they were written for). Column V = `VIOLATION` with a failing input; N = `no-failing-input-found`: the tie or a proof obligation
+tree they were written for), and C15-h, which was aimed at C15 but breaks C03 / C01 (the checks of those report it; the pyvis export
+agrees with the structure it is given, so C15's check is right to stay silent). Column V = `VIOLATION` with a failing input; N = `no-failing-input-found`: the tie or a proof obligation
 broke and the property's own oracle found nothing - typical for a check whose model shares the changed code but whose property the
 change does not break. The target's own column is from the latest `tools/crossmatrix.py --target-only` on HEAD (`seeded/targetsweep.json`); the other
 columns, for variants a-d, from the full run of every quick check against every seed on scratch copies made after round 3
-(`seeded/crossmatrix.json`; a full run takes 5-8 hours and was not repeated for rounds 4 and 5); the row for the unchanged tree
+(`seeded/crossmatrix.json`; a full run takes 5-8 hours and was not repeated for rounds 4 to 7); the row for the unchanged tree
 has {'no alarm' if clean_ok else 'ALARMS - see the json'} in both files. "strengthened" names what had to be added to the
 harness before the seed was caught: {tally}; each addition is a generator / oracle generalisation, none special-cases a seed. The
 shrunk failing cases are kept as `corpus/<pid>/` and run first on every check.
@@ -101,7 +124,12 @@ and per-call callables (memo keys), unhashable and unpicklable filter callables,
 held while the first is edited, re-rendering after same-size membership edits and with one options table grown in between, multiple
 inheritance, the graph replaced by a copy of itself in the middle of a history, loaded copies edited before they are queried in a
 fresh interpreter, by-value classes and closures over graph objects, links that lost an end, a partially consumed enumeration resumed
-after a mutation.
+after a mutation; from round 6: answers of neighbors() edited by the caller, memos filled under OTHER settings before the call under
+test, arguments passed empty and filled later, vertices that all compare equal, metaclasses derived from the library's, calls that
+never return (engine watchdog); from round 7: repeated `universes=` entries, shared uids in structure histories, metaclass-bearing
+by-value classes, lawless universes, functions pickled with their globals and dill's own settings, accessors on empty objects, user
+attributes colliding with the library's string literals, caller-owned option tables reused across calls, same-named classes,
+property-backed title fields, vertex classes with their own `__str__`.
 """
 s = (V / "DESIGN.md").read_text()
 a = s.index("### 12.5 Seeded changes")
